@@ -402,7 +402,8 @@ Definition pmodel_tags (envs : list env) (m m' : pmodel) (t0 : nat) : list nat :
   stmts_tags envs (pm_stmts m) (pm_stmts m') t0 ++
   tag (list_eqb param_eqb (pm_params m) (pm_params m')) (t0 + 1) ++
   tag (list_eqb rdist_eqb (pm_rvs m) (pm_rvs m')) (t0 + 2) ++
-  tag (list_eqb Pos.eqb (pm_dvs m) (pm_dvs m')) (t0 + 3).
+  tag (list_eqb Pos.eqb (pm_dvs m) (pm_dvs m')) (t0 + 3) ++
+  tag (Pos.eqb (pm_value_type m) (pm_value_type m')) (t0 + 100).
 
 Record ccase := mkC {
   cc_before : pmodel;
